@@ -533,9 +533,15 @@ func (st *tunnelServerStream) readMsgLocked() (data []byte, ok bool, err error) 
 
 		in, ok := st.receiver.dequeue()
 		if !ok {
-			var err error
 			if halfClosedErr := st.halfClosed.Load(); halfClosedErr != nil {
-				err = halfClosedErr.error
+				return nil, true, halfClosedErr.error
+			}
+			// The receiver was cancelled without the stream being half-closed,
+			// which only happens when the stream's context is done. We must not
+			// return a nil error here: there is no message to deliver.
+			err := st.ctx.Err()
+			if err == nil {
+				err = context.Canceled
 			}
 			return nil, true, err
 		}
